@@ -188,6 +188,25 @@ theorem total_stress_magnitude_invariant (p : GenP ℝ) (θ0 : ℝ) (om df : Lis
       = (totalStress rfloor p (uniformGrid (N := N) θ0 om df) kin (fieldOf rows) w z0).map Prod.fst :=
   totalStress_magnitude_rot p θ0 om df kin rows w z0 k
 
+/-- **total stress vector** (resolved + tail + viscous): the model's `totalStress` reports the magnitude and the
+direction of this vector, and the vector rotates with the sea and the wind — so the reported stress direction moves by
+the rotation angle modulo 360 (`stress_direction_shifts` turns the rotated vector into the angle statement) -/
+theorem total_stress_vector_rotates (p : GenP ℝ) (θ0 : ℝ) (om df : List ℝ) (kin : Kin ℝ) (rows : List (Fin N → ℝ))
+    (w : Wind ℝ) (z0 : ℝ) (k : Fin N) :
+    OptRot ((k : ℕ) * dθ N) (totalStressVec p (uniformGrid (N := N) θ0 om df) kin (fieldOf rows) w z0)
+      (totalStressVec p (uniformGrid (N := N) θ0 om df) kin (fieldOf (rotField k rows)) (turnWind k w) z0) :=
+  totalStressVec_rot p θ0 om df kin rows w z0 k
+
+theorem total_stress_is_magnitude_and_direction (p : GenP ℝ) (g : Grid ℝ) (kin : Kin ℝ) (E : List (List ℝ)) (w : Wind ℝ) (z0 : ℝ)
+    (hu : (frictionVelocity p w z0 == 0) = false) :
+    totalStress rfloor p g kin E w z0 = (totalStressVec p g kin E w z0).map fun v =>
+      (Transc.sqrt (v.2 * v.2 + v.1 * v.1), some (mod360 rfloor (Transc.atan2 v.2 v.1 * ((180 : ℕ) : ℝ) / Transc.pi))) :=
+  totalStress_of_vec p g kin E w z0 hu
+
+/-- the hypothesis is met: a friction-velocity wind of 1 m/s -/
+example (p : GenP ℝ) (z0 : ℝ) : (frictionVelocity p { speed := 1, dirDeg := 0, isU10 := false } z0 == 0) = false := by
+  simp [frictionVelocity]
+
 /-- **stress balance**: the function of `log z0` whose root is the roughness is unchanged -/
 theorem stress_balance_invariant (p : GenP ℝ) (θ0 : ℝ) (om df : List ℝ) (kin : Kin ℝ) (rows : List (Fin N → ℝ))
     (w : Wind ℝ) (k : Fin N) (lz : ℝ) :
